@@ -212,6 +212,70 @@ example : (removeComments LitPat.isMatch [⟨false, false, [107]⟩] sampleFile)
     ∧ (removeSpaces sampleFile).comments = sampleFile.comments
     ∧ sampleFile.code = [[108], [97]] := by decide
 
+/-! ### every carrier is filtered (the tree `impl_token_fns!` works on) -/
+
+/-- **forall positions**: a generated method that uses the same per-token operation `g` in its three
+sections (`target`, `iter`, `iter_flatten`) and on its node-valued fields applies `g` at EVERY token
+position of the tree. -/
+theorem tree_all_positions (g : Token → Token) (n : Node) :
+    (n.mapSections g g g).tokens = n.tokens.map g :=
+  (mapSections_tokens g).1 n
+
+/-- … position by position -/
+theorem tree_every_position (g : Token → Token) (n : Node) (i : Nat) (h : i < n.tokens.length) :
+    (n.mapSections g g g).tokens[i]? = some (g n.tokens[i]) := by
+  rw [tree_all_positions]; simp [h]
+
+/-- The statement has teeth: a method whose `iter_flatten` section uses another operation (the seeded
+defect C18-m2: `clear_comments` instead of `filter_comments` on statement semicolons) is not the
+map over all positions. -/
+theorem tree_section_matters :
+    ∃ (keep : Trivia → Bool) (n : Node),
+      (n.mapSections (Token.filterComments keep) (Token.filterComments keep) Token.clearComments).tokens
+        ≠ n.tokens.map (Token.filterComments keep) :=
+  ⟨fun _ => true, .mk [] [] [some ⟨[59], none, [], [⟨.comment, [45, 45, 33]⟩]⟩] [], by decide⟩
+
+/-- **code_tokens_unchanged on the tree**: `remove_comments` (any `except`, any matcher) acts on a
+tree exactly as on the list of all its token positions, so code tokens and lines are unchanged at every
+carrier and exactly the comments matching no `except` pattern disappear, whichever carrier holds them. -/
+theorem code_tokens_unchanged_tree {Pat : Type} (isMatch : Pat → Bytes → Bool) (except : List Pat)
+    (n : Node) :
+    (removeCommentsTree isMatch except n).toFile = removeComments isMatch except n.toFile
+    ∧ (removeCommentsTree isMatch except n).toFile.code = n.toFile.code
+    ∧ (removeCommentsTree isMatch except n).toFile.comments
+        = n.toFile.comments.filter (fun c => except.any fun p => isMatch p c) := by
+  have e : (removeCommentsTree isMatch except n).toFile = removeComments isMatch except n.toFile := by
+    unfold removeCommentsTree removeComments Node.toFile
+    split
+    · simp [Node.clearComments, tree_all_positions, File.mapTokens]
+    · simp [Node.filterComments, tree_all_positions, File.mapTokens]
+  refine ⟨e, ?_, ?_⟩
+  · rw [e]; exact (code_tokens_unchanged isMatch except n.toFile).1
+  · rw [e]; exact (code_tokens_unchanged isMatch except n.toFile).2.2
+
+/-- `remove_spaces` on the tree: the same for whitespace trivia. -/
+theorem removeSpaces_tree (n : Node) :
+    (removeSpacesTree n).toFile = removeSpaces n.toFile
+    ∧ (removeSpacesTree n).toFile.code = n.toFile.code
+    ∧ (removeSpacesTree n).toFile.comments = n.toFile.comments
+    ∧ (removeSpacesTree n).toFile.whitespaces = [] := by
+  have e : (removeSpacesTree n).toFile = removeSpaces n.toFile := by
+    simp [removeSpacesTree, removeSpaces, Node.toFile, Node.clearWhitespaces, tree_all_positions,
+      File.mapTokens]
+  refine ⟨e, ?_, ?_, ?_⟩ <;> rw [e]
+  · exact (removeSpaces_spec n.toFile).1
+  · exact (removeSpaces_spec n.toFile).2.2.1
+  · exact (removeSpaces_spec n.toFile).2.2.2
+
+/-- a block `f() ; -- !` whose semicolon (an `iter_flatten` carrier) holds the comment to keep -/
+def sampleTree : Node :=
+  .mk [] [⟨[], some 1, [], []⟩] [some ⟨[59], some 1, [], [⟨.comment, [45, 45, 33]⟩]⟩]
+    [.mk [⟨[102], some 1, [], []⟩] [] [] [.mk [⟨[40], some 1, [], []⟩, ⟨[41], some 1, [], []⟩] [] [] []]]
+
+example : (removeCommentsTree LitPat.isMatch [⟨false, false, [33]⟩] sampleTree).toFile.comments = [[45, 45, 33]]
+    ∧ (removeCommentsTree LitPat.isMatch [] sampleTree).toFile.comments = []
+    ∧ sampleTree.toFile.code = [[59], [102], [40], [41]] := by decide
+
 /-! ## Part C: `append_text_comment` on the token model -/
 
 /-- `append_text_comment` never changes the code tokens (either location, any text, any file). -/
